@@ -17,6 +17,41 @@ type sender[T any] struct {
 	t    *Thread
 	v    T
 	done bool
+	sel  *selState // non-nil: registered by a blocked select; valid only while !sel.fired
+	idx  int
+}
+
+// selState is shared by the registrations of one blocked select statement.
+type selState struct {
+	fired  bool
+	chosen int
+}
+
+// popSender removes and returns the first live sender (skipping registrations of
+// select statements that have already fired on another case).
+func (c *Chan[T]) popSender() *sender[T] {
+	for len(c.sendq) > 0 {
+		s := c.sendq[0]
+		c.sendq = c.sendq[1:]
+		if s.sel != nil {
+			if s.sel.fired {
+				continue
+			}
+			s.sel.fired = true
+			s.sel.chosen = s.idx
+		}
+		return s
+	}
+	return nil
+}
+
+func (c *Chan[T]) hasSender() bool {
+	for _, s := range c.sendq {
+		if s.sel == nil || !s.sel.fired {
+			return true
+		}
+	}
+	return false
 }
 
 func NewChan[T any](n ...int) *Chan[T] {
@@ -63,9 +98,7 @@ func (c *Chan[T]) Recv2() (T, bool) {
 			v := c.buf[0]
 			c.buf = c.buf[1:]
 			// a blocked sender can now move its value into the buffer
-			if len(c.sendq) > 0 {
-				s := c.sendq[0]
-				c.sendq = c.sendq[1:]
+			if s := c.popSender(); s != nil {
 				c.buf = append(c.buf, s.v)
 				s.done = true
 				s.t.Unblock()
@@ -73,9 +106,7 @@ func (c *Chan[T]) Recv2() (T, bool) {
 			t.Note("recv:v")
 			return v, true
 		}
-		if len(c.sendq) > 0 {
-			s := c.sendq[0]
-			c.sendq = c.sendq[1:]
+		if s := c.popSender(); s != nil {
 			s.done = true
 			s.t.Unblock()
 			t.Note("recv:v")
